@@ -1179,3 +1179,51 @@ def scen_mask_mixed(ctx, M):
               unless=w1)
     ctx.goal('masked')
     return (out,)
+
+
+def scen_mask_twice(ctx, M):
+    """the same message masked twice with two different masks: the second
+    result must carry the second mask (no state between calls)"""
+    su = M.su
+    rname, before, mid, after, aclass = [r for r in SZ.RENDERINGS
+                                         if r[0] == ctx.p['rendering']][0]
+    key = ctx.p['key']
+    a = after % {'key': key} if '%(key)s' in after else after
+    msg = 'x ' + before + key + mid + 'Sekr3t' + a + ' y'
+    m1 = ctx.choice('mask1', ['***', 'X', '#'])
+    m2 = ctx.choice('mask2', ['X', '***', '--'])
+    o1 = su.mask_password(msg, secret=m1)
+    o2 = su.mask_password(msg, secret=m2)
+    ctx.check('C04-twice-first', o1 == 'x ' + before + key + mid + m1 + a
+              + ' y')
+    ctx.check('C04-twice-second', o2 == 'x ' + before + key + mid + m2 + a
+              + ' y')
+    ctx.goal('masked')
+    return (o1, o2)
+
+
+OVERLAPS = ['adminPassword', 'new_passphrase', 'admin_passphrase',
+            'chapsecret_uuid', 'auth_tokensecret', 'xpassword',
+            'sys_pswdtoken']
+
+
+def scen_mask_overlap(ctx, M):
+    """identifiers in which one sanitize key overlaps or follows another
+    ('adminPassword' holds 'adminpass' and 'password'): the value is still
+    masked, whichever key the implementation notices first"""
+    su = M.su
+    ident = ctx.choice('ident', OVERLAPS)
+    rname, before, mid, after, aclass = [r for r in SZ.RENDERINGS
+                                         if r[0] == ctx.p['rendering']][0]
+    s = ctx.str('v', 1, SZ.ALPHABET[aclass] - frozenset(b'=-'))
+    a = after % {'key': ident} if '%(key)s' in after else after
+    msg = cat('x ', before, ident, mid, s, a, ' y')
+    want = cat('x ', before, ident, mid, '***', a, ' y')
+    out = su.mask_password(msg)
+    # which idents end in a reference key directly before the value
+    low = ident.lower()
+    ends = any(low.endswith(k) for k in SZ.KEYS)
+    if ends:
+        ctx.check('C04-overlapping-keys-masked', out == want)
+        ctx.goal('masked')
+    return (out,)
